@@ -39,6 +39,11 @@ func Interface(ifaceVar interface{}, ctx *iface.IContext, method string, imp int
 		return erro.NewIllegalParamCError("interface As()", reflect.ValueOf(imp).String(), cause)
 	}
 
+	// 已取消的上下文(比如 Reset 之后继续使用之前获取的 Mocker)被再次使用时, 开启新的一轮 mock
+	if ctx.Canceled() {
+		ctx.Reactivate()
+	}
+
 	// 首次调用备份 iface
 	gen := hack.UnpackEFace(ifaceVar).Data
 	iface.BackUpTo(ctx, gen)
